@@ -3,11 +3,22 @@ use std::str::FromStr;
 use crate::error::ZervError;
 use crate::version::zerv::Zerv;
 
+/// Nesting depth accepted when reading Zerv RON. A custom JSON value may be nested up to
+/// serde_json's own limit (128 levels) and every JSON level costs two RON levels, so ron's
+/// default limit of 128 refused documents that zerv itself had just emitted.
+const ZERV_RON_RECURSION_LIMIT: usize = 512;
+
+/// RON options used wherever a Zerv document is read
+pub fn zerv_ron_options() -> ron::Options {
+    ron::Options::default().with_recursion_limit(ZERV_RON_RECURSION_LIMIT)
+}
+
 impl FromStr for Zerv {
     type Err = ZervError;
 
     fn from_str(s: &str) -> Result<Self, Self::Err> {
-        ron::de::from_str(s)
+        zerv_ron_options()
+            .from_str(s)
             .map_err(|e| ZervError::InvalidVersion(format!("Invalid Zerv RON format: {e}")))
     }
 }
